@@ -132,7 +132,7 @@ fn reference_kinds(thorough: bool) -> Vec<Subject> {
         ("fault/constant-declared-only-in-another-function-block", vec![("Holder", "fb", "FUNCTION_BLOCK Holder VAR CONSTANT k : INT := 1 ; END_VAR VAR n : INT ; END_VAR n := k ; END_FUNCTION_BLOCK")], ("C", "fb", "FUNCTION_BLOCK C VAR n : INT ; END_VAR n := k ; END_FUNCTION_BLOCK"), true),
         ("fault/external-declared-only-in-another-function-block", vec![main, cfg, ("Holder", "fb", "FUNCTION_BLOCK Holder VAR_EXTERNAL CONSTANT G : INT ; END_VAR VAR n : INT ; END_VAR n := G ; END_FUNCTION_BLOCK")], ("C", "fb", "FUNCTION_BLOCK C VAR n : INT ; END_VAR n := G ; END_FUNCTION_BLOCK"), true),
         // the same fault in two unrelated declarations: both are reported, in every order
-        ("fault/two-declarations-use-the-same-unknown-type", vec![level, ("Holder", "fb", "FUNCTION_BLOCK Holder VAR m : Missing ; n : INT ; END_VAR n := 1 ; END_FUNCTION_BLOCK")], ("C", "fb", "FUNCTION_BLOCK C VAR lv : Level ; m : Missing ; END_VAR lv := Low ; END_FUNCTION_BLOCK"), true),
+        ("fault/two-declarations-use-the-same-unknown-type", vec![level, ("Holder", "fb", "FUNCTION_BLOCK Holder VAR m : Missing ; n : INT ; END_VAR n := 1 ; END_FUNCTION_BLOCK")], ("C", "fb", "FUNCTION_BLOCK C VAR n : INT ; m : Missing ; END_VAR n := 2 ; END_FUNCTION_BLOCK"), true),
         ("fault/two-declarations-use-the-same-undeclared-variable", vec![("Holder", "fb", "FUNCTION_BLOCK Holder VAR n : INT ; END_VAR n := zz ; END_FUNCTION_BLOCK")], ("C", "program", "PROGRAM C VAR n : INT ; END_VAR n := zz ; END_PROGRAM"), true),
         ("fault/two-declarations-use-the-same-undeclared-enumeration-value", vec![level, ("Holder", "fb", "FUNCTION_BLOCK Holder VAR lv : Level := Nope ; END_VAR lv := Low ; END_FUNCTION_BLOCK")], ("C", "fb", "FUNCTION_BLOCK C VAR lv : Level := Nope ; END_VAR lv := Low ; END_FUNCTION_BLOCK"), true),
         // one global name in two configurations, constant in one of them only
